@@ -206,7 +206,7 @@ def cases(rng, tier):
     yield u._base("shelf", 0.015, 0.015, 400, 3300, dim="spatial_1D", start=20, stop=-16, rate=0.5)
     if tier != "quick":
         yield u._base("jacket", 0.015, 0.03, 400, 3300, start=20, stop=-16, rate=0.5)
-        yield u._base("shelf", 0.02, 0.02, 300, 3400, dim="spatial_1D", start=10, stop=-12, rate=0.2)
+        yield u._base("shelf", 0.02, 0.02, 300, 3400, dim="spatial_1D", start=10, stop=-25, rate=0.2)
     # cooling start exactly at T_eq in a tall vial: nodes that never moved sit exactly at T_m, the mask-multiplied
     # terms of the code give inf*0 = NaN there and the run ends in "Solidification is not completed"; the model
     # mirrors the multiplication (same exception class expected; nothing is reported, so no clause is evaluated)
